@@ -12,6 +12,9 @@ CLAIMS = {
  'C01': dict(engine='netmc', ref='DESIGN.md §2, §5 C01',
    text='Every environment schedule with <= d deviations (delayed peer action, slow/partial reader, short write, would-block) of every tunnel / HTTP relay scenario (payload alphabet x packings x scaled and full-size buffer thresholds) is executed on the real LocalFdExecutor event loop; client and upstream byte streams are compared for equality with what the peers sent.',
    note=NETMC_NOTE, technique='stateless model checking of the implementation (deviation-bounded exhaustive schedule enumeration over the real event loop)'),
+ 'C07': dict(engine='netmc', ref='DESIGN.md §2, §5 C07',
+   text='Every environment schedule with <= d deviations (slow/partial client reads, short writes, would-block, delayed upstream close) of every scenario in which the proxy closes after producing output (400/404/407/502, static files up to 200 KiB over 4 KiB kernel buffers, relayed response followed by upstream close, early upstream response with failing upstream write) is executed in local, remote and threaded mode; bytes read by the client up to end-of-stream must equal the reference output (h11-valid) / everything the proxy read from the upstream, and the close must follow the last accepted byte within 4 loop iterations.',
+   note=NETMC_NOTE, technique='stateless model checking of the implementation (deviation-bounded exhaustive schedule enumeration, three execution modes)'),
  'C03': dict(engine='segmc', ref='DESIGN.md §1, §5 C03',
    text='All segmentations (every subset of cut positions) of every message of a structured small-scope corpus are explored on the real HttpParser/ChunkParser by explicit-state search with state merging; completion timing, fields, body and remainder are checked in every reachable state against generator ground truth.',
    note='Exhaustive within the corpus (message shapes, small bodies, all chunk layouts) -- not over all byte strings. Trusted: CPython, deepcopy state cloning, the generator ground truth.',
